@@ -7,7 +7,7 @@ abbrev D (s : State) : Prop := DriverInv s.size s.alive s.dk s.numClk s.clk s.nc
 /-! frames of the raw clock primitives -/
 
 theorem detachClock_frame {s s' : State} {h p : Nat} (hr : detachClock s h p = .ok s') :
-    ∃ cd ck, s' = { s with clocked := cd, clk := ck } ∧ (∀ x y, ¬ (x = h ∧ y = p) → ck x y = s.clk x y) ∧ ck h p = none ∧
+    ∃ cd ck ca, s' = { s with clocked := cd, clk := ck, cache := ca } ∧ (∀ x y, ¬ (x = h ∧ y = p) → ck x y = s.clk x y) ∧ ck h p = none ∧
       s.live h ∧ p < s.numClk h := by
   unfold detachClock at hr
   split at hr
@@ -18,15 +18,15 @@ theorem detachClock_frame {s s' : State} {h p : Nat} (hr : detachClock s h p = .
   · rename_i hn
     have e : s = s' := by injection hr
     subst e
-    exact ⟨s.clocked, s.clk, rfl, fun _ _ _ => rfl, hn, hl, hp⟩
+    exact ⟨s.clocked, s.clk, s.cache, rfl, fun _ _ _ => rfl, hn, hl, hp⟩
   · split at hr
     · cases hr
     have e := Except.ok.inj hr
     subst e
-    exact ⟨_, _, rfl, fun x y hxy => by simp [upd2_apply, hxy], by simp [upd2_apply], hl, hp⟩
+    exact ⟨_, _, _, rfl, fun x y hxy => by simp [upd2_apply, hxy], by simp [upd2_apply], hl, hp⟩
 
 theorem attachClock_frame {s s' : State} {h p : Nat} {c : Option Nat} (hr : attachClock s h p c = .ok s') :
-    ∃ cd ck, s' = { s with clocked := cd, clk := ck } ∧ (∀ x y, ¬ (x = h ∧ y = p) → ck x y = s.clk x y) ∧ ck h p = c ∧
+    ∃ cd ck ca, s' = { s with clocked := cd, clk := ck, cache := ca } ∧ (∀ x y, ¬ (x = h ∧ y = p) → ck x y = s.clk x y) ∧ ck h p = c ∧
       s.live h ∧ p < s.numClk h := by
   unfold attachClock at hr
   split at hr
@@ -39,32 +39,32 @@ theorem attachClock_frame {s s' : State} {h p : Nat} {c : Option Nat} (hr : atta
   · rename_i heq
     have e : s = s' := by injection hr
     subst e
-    exact ⟨s.clocked, s.clk, rfl, fun _ _ _ => rfl, heq, hl, hp⟩
+    exact ⟨s.clocked, s.clk, s.cache, rfl, fun _ _ _ => rfl, heq, hl, hp⟩
   obtain ⟨s1, h1, h2⟩ := bind_ok.mp hr
-  obtain ⟨cd, ck, rfl, hfr, _, _, _⟩ := detachClock_frame h1
+  obtain ⟨cd, ck, ca, rfl, hfr, _, _, _⟩ := detachClock_frame h1
   cases c with
   | none =>
     simp only at h2
     have e := Except.ok.inj h2
     subst e
-    exact ⟨_, _, rfl, fun x y hxy => by simp [upd2_apply, hxy, hfr x y hxy], by simp [upd2_apply], hl, hp⟩
+    exact ⟨_, _, _, rfl, fun x y hxy => by simp [upd2_apply, hxy, hfr x y hxy], by simp [upd2_apply], hl, hp⟩
   | some c =>
     simp only at h2
     have e := Except.ok.inj h2
     subst e
-    exact ⟨_, _, rfl, fun x y hxy => by simp [upd2_apply, hxy, hfr x y hxy], by simp [upd2_apply], hl, hp⟩
+    exact ⟨_, _, _, rfl, fun x y hxy => by simp [upd2_apply, hxy, hfr x y hxy], by simp [upd2_apply], hl, hp⟩
 
 theorem detachRange_frame {h : Nat} (ps : List Nat) {s s' : State} (hr : detachRange s h ps = .ok s') :
-    ∃ cd ck, s' = { s with clocked := cd, clk := ck } ∧ (∀ x y, x ≠ h → ck x y = s.clk x y) := by
+    ∃ cd ck ca, s' = { s with clocked := cd, clk := ck, cache := ca } ∧ (∀ x y, x ≠ h → ck x y = s.clk x y) := by
   induction ps generalizing s with
   | nil =>
     have e : s = s' := by injection hr
-    subst e; exact ⟨s.clocked, s.clk, rfl, fun _ _ _ => rfl⟩
+    subst e; exact ⟨s.clocked, s.clk, s.cache, rfl, fun _ _ _ => rfl⟩
   | cons p ps ih =>
     obtain ⟨s1, h1, h2⟩ := bind_ok.mp hr
-    obtain ⟨cd1, ck1, rfl, hfr1, _⟩ := detachClock_frame h1
-    obtain ⟨cd, ck, rfl, hfr⟩ := ih (s := { s with clocked := cd1, clk := ck1 }) h2
-    exact ⟨cd, ck, rfl, fun x y hx => by rw [hfr x y hx]; exact hfr1 x y (fun e => hx e.1)⟩
+    obtain ⟨cd1, ck1, ca1, rfl, hfr1, _⟩ := detachClock_frame h1
+    obtain ⟨cd, ck, ca, rfl, hfr⟩ := ih (s := { s with clocked := cd1, clk := ck1, cache := ca1 }) h2
+    exact ⟨cd, ck, ca, rfl, fun x y hx => by rw [hfr x y hx]; exact hfr1 x y (fun e => hx e.1)⟩
 
 /-- changing the clock port of a node that no live clock names as its driver keeps `DriverInv` -/
 theorem di_clk_other {size : Nat} {alive : Nat → Bool} {dk numClk : Nat → Nat} {clk ck : Nat → Nat → Option Nat}
@@ -163,12 +163,12 @@ theorem drainClock_di {c0 : Nat} (fuel : Nat) {s s' : State} (hC : C s)
       obtain ⟨s1, h1, h2⟩ := bind_ok.mp hr
       have hxm : x ∈ s.clocked c0 := by rw [hx]; exact List.mem_cons_self
       obtain ⟨_, _, _, hxc⟩ := hC.2 c0 hc0 x hxm
-      obtain ⟨cd1, ck1, e1, hC1, _⟩ := detachClock_spec hC h1
-      obtain ⟨cd1', ck1', e1', hfr, _⟩ := detachClock_frame h1
+      obtain ⟨cd1, ck1, ca1, e1, hC1, _⟩ := detachClock_spec hC h1
+      obtain ⟨cd1', ck1', ca1', e1', hfr, _⟩ := detachClock_frame h1
       subst e1
       have hck : ck1 = ck1' := by injection e1'
       subst hck
-      apply ih (s := { s with clocked := cd1, clk := ck1 }) hC1 _ hc0 h2
+      apply ih (s := { s with clocked := cd1, clk := ck1, cache := ca1 }) hC1 _ hc0 h2
       intro c hc hcal k hk hk0 d hd
       obtain ⟨a, b, e, f, g⟩ := hD c hc hcal k hk hk0 d hd
       refine ⟨a, b, e, f, ?_⟩
@@ -201,7 +201,7 @@ theorem destroyClock_di {s s' : State} {c : Nat} (hC : C s) (hD : D s) (hr : des
 
 /-- `Clock::setLogicClockDriver` / `setLogicResetDriver` -/
 theorem setLogicDriver_spec {s s' : State} {k c d : Nat} (hC : C s) (hA : CA s) (hD : D s) (hr : setLogicDriver s k c d = .ok s') :
-    ∃ cd ck dv, s' = { s with clocked := cd, clk := ck, drv := dv } ∧
+    ∃ cd ck ca dv, s' = { s with clocked := cd, clk := ck, cache := ca, drv := dv } ∧
       ClockInv s.size s.alive s.numClk ck s.nclocks cd ∧ CAInv s.size s.alive s.numClk ck s.calive ∧
       DriverInv s.size s.alive s.dk s.numClk ck s.nclocks s.calive dv := by
   unfold setLogicDriver at hr
@@ -219,7 +219,7 @@ theorem setLogicDriver_spec {s s' : State} {k c d : Nat} (hC : C s) (hA : CA s) 
   have huniq : ∀ c2, c2 < s.nclocks → s.calive c2 = true → c2 ≠ c → s.drv k c2 ≠ some d := Classical.not_not.mp hg3
   obtain ⟨s1, h1, h2⟩ := bind_ok.mp hr
   -- step 1: release the previous driver; invariant for all clocks but `c`
-  have step1 : ∃ cd1 ck1, s1 = { s with clocked := cd1, clk := ck1 } ∧
+  have step1 : ∃ cd1 ck1 ca1, s1 = { s with clocked := cd1, clk := ck1, cache := ca1 } ∧
       ClockInv s.size s.alive s.numClk ck1 s.nclocks cd1 ∧ CAInv s.size s.alive s.numClk ck1 s.calive ∧
       (∀ x y, (∀ o, s.drv k c = some o → x ≠ o) → ck1 x y = s.clk x y) := by
     cases hold : s.drv k c with
@@ -227,27 +227,27 @@ theorem setLogicDriver_spec {s s' : State} {k c d : Nat} (hC : C s) (hA : CA s) 
       rw [hold] at h1
       have e : s = s1 := by injection h1
       subst e
-      exact ⟨s.clocked, s.clk, rfl, hC, hA, fun _ _ _ => rfl⟩
+      exact ⟨s.clocked, s.clk, s.cache, rfl, hC, hA, fun _ _ _ => rfl⟩
     | some old =>
       rw [hold] at h1
       simp only at h1
-      obtain ⟨cd1, ck1, e1, hC1, hprov⟩ := attachClock_spec hC h1
-      obtain ⟨cd1', ck1', e1', hfr, _⟩ := attachClock_frame h1
+      obtain ⟨cd1, ck1, ca1, e1, hC1, hprov⟩ := attachClock_spec hC h1
+      obtain ⟨cd1', ck1', ca1', e1', hfr, _⟩ := attachClock_frame h1
       subst e1
       have hck : ck1 = ck1' := by injection e1'
       subst hck
-      refine ⟨cd1, ck1, rfl, hC1, ca_mono hA hprov, ?_⟩
+      refine ⟨cd1, ck1, ca1, rfl, hC1, ca_mono hA hprov, ?_⟩
       intro x y hx
       exact hfr x y (fun e => hx old rfl e.1)
-  obtain ⟨cd1, ck1, rfl, hC1, hA1, hfr1⟩ := step1
+  obtain ⟨cd1, ck1, ca1, rfl, hC1, hA1, hfr1⟩ := step1
   -- step 2: store and attach the new driver
-  obtain ⟨cd2, ck2, e2, hC2, hprov2⟩ := attachClock_spec
-    (s := { s with clocked := cd1, clk := ck1, drv := upd2 s.drv k c (some d) }) hC1 h2
-  obtain ⟨cd2', ck2', e2', hfr2, hset, _⟩ := attachClock_frame h2
+  obtain ⟨cd2, ck2, ca2, e2, hC2, hprov2⟩ := attachClock_spec
+    (s := { s with clocked := cd1, clk := ck1, cache := ca1, drv := upd2 s.drv k c (some d) }) hC1 h2
+  obtain ⟨cd2', ck2', ca2', e2', hfr2, hset, _⟩ := attachClock_frame h2
   subst e2
   have hck : ck2 = ck2' := by injection e2'
   subst hck
-  refine ⟨cd2, ck2, _, rfl, hC2, ca_mono hA1 hprov2, ?_⟩
+  refine ⟨cd2, ck2, ca2, _, rfl, hC2, ca_mono hA1 hprov2, ?_⟩
   intro c1 hc1 hcal1 k1 hk1 hk10 d1 hd1
   replace hd1 : upd2 s.drv k c (some d) k1 c1 = some d1 := hd1
   rw [upd2_apply] at hd1
@@ -296,12 +296,12 @@ theorem notSlot_of_SB {b : Nat} {s : State} (h : Nat) (hS : SB b s) (hb : b ≤ 
 
 theorem attachClock_di {s s' : State} {h p : Nat} {c : Option Nat} (hD : D s) (hns : NotSlot s h)
     (hr : attachClock s h p c = .ok s') : D s' := by
-  obtain ⟨cd, ck, rfl, hfr, _⟩ := attachClock_frame hr
+  obtain ⟨cd, ck, ca, rfl, hfr, _⟩ := attachClock_frame hr
   exact di_clk_other hD h (fun x y hx => hfr x y (fun e => hx e.1)) hns
 
 theorem detachClock_di {s s' : State} {h p : Nat} (hD : D s) (hns : NotSlot s h)
     (hr : detachClock s h p = .ok s') : D s' := by
-  obtain ⟨cd, ck, rfl, hfr, _⟩ := detachClock_frame hr
+  obtain ⟨cd, ck, ca, rfl, hfr, _⟩ := detachClock_frame hr
   exact di_clk_other hD h (fun x y hx => hfr x y (fun e => hx e.1)) hns
 
 theorem addClock_di {s s' : State} {h : Nat} {c : Option Nat} (hD : D s) (h0 : s.dk h = 0)
@@ -310,7 +310,7 @@ theorem addClock_di {s s' : State} {h : Nat} {c : Option Nat} (hD : D s) (h0 : s
   split at hr
   · cases hr
   simp only at hr
-  obtain ⟨cd, ck, rfl, hfr, _⟩ := attachClock_frame hr
+  obtain ⟨cd, ck, ca, rfl, hfr, _⟩ := attachClock_frame hr
   refine grow_di hD h h0 (fun x hx => by simp [upd_apply, hx]) ?_
   intro x y hx
   have e1 : ck x y = upd2 s.clk h (s.numClk h) none x y := hfr x y (fun e => hx e.1)
